@@ -9,7 +9,9 @@ Histories are arbitrary lists of `Op`: write batches, no-ops, FSM.Snapshot() (`s
 after any number of further writes / loads / no-ops, as hashicorp/raft allows (a Persist that blocks
 forever is a `snapBegin` never followed by its `snapEnd`) — its Persist+Close or
 Release (`snapEnd` with any `Outcome`: installed; Persist not invoked; Persist failing before /
-after the staged WAL is consumed), user snapshots, loads, boots, snapshot installs, reaps, restarts.
+after the staged WAL is consumed — the latter being the sink's fatal exit, i.e. a restart), an
+FSM.Snapshot() that checkpoints but cannot stage its WAL, user snapshots, loads, boots, snapshot
+installs (also while a local snapshot is in flight), reaps, restarts.
 -/
 import RqModel.Lemmas.SnapSM
 import RqModel.Gen.StoreStaging
@@ -169,6 +171,18 @@ theorem requirement_survives_without_mtime_guard :
     (snapBegin 2 { run 2 {} h with modified := false }).2 = "incremental" ∧
     (snapBegin 3 { run 3 {} h with modified := false }).2 = "full" := by decide
 
+/-- 4670e70 (levels ≤ 2 → 3; found and repaired under C06): the incremental path of fsmSnapshot
+checkpoints the WAL into the database file and then fails to write its frames to wal-staging. Before
+the fix nothing recorded the gap and the next incremental snapshot was cut from a database the
+store's chain does not lead to; now a full snapshot is required. -/
+def stageFails : List Op :=
+  [.write 1, .snapshot .ok, .write 2, .snapBeginStageFails, .write 3, .snapshot .ok]
+
+theorem stage_failure_witness :
+    (step 2 (run 2 {} stageFails) .restart).2 = "corrupt" ∧
+    (step 3 (run 3 {} stageFails) .restart).2 = "ok" ∧ (run 3 {} stageFails).db = [1, 2, 3] ∧
+    resolve (run 3 {} stageFails).snaps = some [1, 2, 3] := by decide
+
 /-- Not a violation of this property, but a consequence of `fix:` 6482ad3 worth knowing: a snapshot
 from the leader installed between a follower's FSM.Snapshot() of an INCREMENTAL snapshot and its
 Persist+Close makes that Close fail on the removed staging directory, which is the sink's fatal
@@ -207,7 +221,8 @@ def exHistory : List Op :=
   [.write 1, .snapshot .ok, .write 2, .snapshot .notInvoked, .write 3, .snapshot .failBefore, .write 4,
    .snapshot .ok, .reap, .load [5], .write 6, .snapshot .failAfter, .snapshot .ok, .boot [7], .write 8,
    .snapBegin, .write 9, .load [10], .snapEnd .ok, .write 11, .snapBegin, .noop, .snapEnd .ok,
-   .install [12], .write 13, .snapshot .ok, .restart]
+   .write 14, .snapBeginStageFails, .write 15, .snapshot .ok, .write 16, .snapBegin, .write 17, .snapEnd .failAfter,
+   .write 18, .snapBegin, .noop, .install [12], .snapEnd .ok, .write 13, .snapshot .ok, .restart]
 
 example : (run 3 {} exHistory).db = [12, 13] ∧ resolve (run 3 {} exHistory).snaps = some [12, 13] := by decide
 
